@@ -495,6 +495,8 @@ class Gen:
             params = params + [("bo", ("oref", op, False, "a", False))]
             ref = ("oref", op, False, "a", False)
             other = self.pick([("unit",), ("prim", self.pick(self.prims())), ref])
+            if other[0] == "prim" and not self.p["result_prim_err"]:
+                other = ("unit",)
             ret = ("result", ref, other, "std") if self.chance(0.5) else ("result", other, ref, "std")
         elif ch == "param_slice":
             pr = self.pick(SLICE_PRIMS[:-1])
